@@ -34,7 +34,8 @@ What is stubbed (cannot run here / out of the property's scope)
     container directory, as runtime_base.finish ends), abort reporting.
 
 History = list of [op, args]:
-  CacheCreate [a]   CacheDelete [a]   ReadyOn []   ReadyOff []
+  CacheCreate [a] (onto an existing entry: replace in place, logged as
+  CacheReplace)     CacheDelete [a]   ReadyOn []   ReadyOff []
   ContainerFinishes [a, g, marker]    MonitorCleanup [a, g]
   CleanupCompletes [k, i, g]          ManagerRestart []     NodeStart []
   Deliver []   CleanupStart []   CleanupEvent []   (cleanup service, extension)
@@ -64,9 +65,12 @@ from treadmill import monitor  # noqa: E402
 from treadmill import utils  # noqa: E402
 from treadmill.appcfg import abort as app_abort  # noqa: E402
 
-# manifest.load() stamps the cell and the ZooKeeper url into the manifest
-context.GLOBAL.cell = 'verifcell'
-context.GLOBAL.zk.url = 'zookeeper://verif@localhost:2181'
+def _set_context():
+    """manifest.load() stamps the cell and the ZooKeeper url into the manifest.
+    treadmill.context.GLOBAL is thread-local: set it where the handlers run,
+    not at import time (the module may be imported by another thread)."""
+    context.GLOBAL.cell = 'verifcell'
+    context.GLOBAL.zk.url = 'zookeeper://verif@localhost:2181'
 
 logging.getLogger('treadmill').addHandler(logging.NullHandler())
 logging.getLogger('treadmill').propagate = False
@@ -172,6 +176,7 @@ class Node:
     """One treadmill root on a scratch directory + the real objects."""
 
     def __init__(self):
+        _set_context()
         self.root = tlc.scratch('verif-c13-')
         self._patches = [
             # appcfg.configure.configure() is the REAL one (manifest.load, unique
@@ -368,6 +373,7 @@ class Node:
     def op_CacheCreate(self, a):
         env = self.mgr.tm_env
         path = os.path.join(env.cache_dir, real_name(a))
+        replaced = os.path.exists(path)   # rename over the old file: no DELETED event
         # eventmgr.EventMgr._cache
         fs.write_safe(path, lambda f: f.write(MANIFEST), prefix='.%s-' % real_name(a),
                       mode='w', permission=0o644)
@@ -379,7 +385,7 @@ class Node:
         self.gens[a] = g
         self.cur[a] = g
         self.uniq[u] = (a, g)
-        return 'CacheCreate', [a, g]
+        return ('CacheReplace' if replaced else 'CacheCreate'), [a, g]
 
     def op_CacheDelete(self, a):
         path = os.path.join(self.mgr.tm_env.cache_dir, real_name(a))
@@ -563,7 +569,12 @@ def enabled_ops(post, instances, maxgen, gens, late, svc=False, crash=False):
     for a in instances:
         if gens.get(a, 0) < maxgen:
             # placing an instance again after an eviction is what the property is about
-            ops.append((1.0 if a in cached else (4.0 if gens.get(a, 0) else 2.5), 'CacheCreate', [a]))
+            # ... and replacing the entry of a running instance in place while the
+            # cache is not ready (eventmgr re-caching after a reconnect)
+            w = 1.0 if a in cached else (4.0 if gens.get(a, 0) else 2.5)
+            if a in cached and a in run and not post['ready']:
+                w = 5.0
+            ops.append((w, 'CacheCreate', [a]))
     for c in post['cache']:
         ops.append((2.0, 'CacheDelete', [c['a']]))
     ops.append((1.0 if post['ready'] else 4.0, 'ReadyOn', []))
@@ -637,9 +648,11 @@ def replay(history=None, rng=None, depth=0, instances=('a1', 'a2'), maxgen=2, la
             if res[0] == 'Crash' or (op == 'Crash' and res[0] in _EVNAME.values()):
                 eff.append(['Crash', list(args[:1])])       # replays as the same kill point
             else:
-                eff.append(['Deliver' if res[0] in _EVNAME.values() else res[0],
+                eff.append(['Deliver' if res[0] in _EVNAME.values() else
+                            ('CacheCreate' if res[0] == 'CacheReplace' else res[0]),
                             [] if res[0] in _EVNAME.values() else
-                            (res[1][:1] if res[0] == 'CacheCreate' else res[1])])
+                            (res[1][:1] if res[0] in ('CacheCreate', 'CacheReplace')
+                             else res[1])])
         return eff, lines
     finally:
         node.close()
@@ -650,6 +663,9 @@ def from_labels(labels):
     hist = []
     for name, args in labels:
         if name in ('Synchronize', 'Initial', 'Next', 'Init'):
+            continue
+        if name == 'CacheReplace':
+            hist.append(['CacheCreate', list(args)])
             continue
         if name == 'Crash':
             # the model cuts after k abstract effects (directory, link, ...); the
